@@ -23,14 +23,16 @@ static const int lenmap[3][4] = {{0, 1, 33, 99}, {0, 20, 60, 130}, {0, 32, 98, 1
 #define D1 Q_HASHARR_DATASIZE
 #define D2 ((int) sizeof(struct Q_HASHARR_SLOT_KEYVAL))
 static unsigned char vbyte(int vid, int off) {
-    if (vid >= 3 && off < 5) return (unsigned char) ((1 * 97 + off * 7 + 3) % 251);      /* values 3, 4: as value 1 up to ... */
+    if (vid == 5) return (unsigned char) ('a' + (off * 7 + 3) % 26);                     /* value 5: a C string (terminator set by mkval) */
+    if (vid >= 3 && off < 5) return (unsigned char) (1 + (1 * 97 + off * 7 + 3) % 251);  /* values 3, 4: as value 1 up to ... */
     if (vid >= 3 && off == 5) return 0;                                                  /* ... an embedded NUL */
-    return (unsigned char) ((vid * 97 + off * 7 + 3) % 251);
+    return (unsigned char) (1 + (vid * 97 + off * 7 + 3) % 251);                         /* never 0: a lone NUL chunk can only be value 5's terminator */
 }
-static void mkval(unsigned char *b, int vid, int len) { for (int j = 0; j < len; j++) b[j] = vbyte(vid, j); }
+static void mkval(unsigned char *b, int vid, int len) { for (int j = 0; j < len; j++) b[j] = vbyte(vid, j); if (vid == 5 && len > 0) b[len - 1] = 0; }
 static int valid_of(const unsigned char *d, size_t sz) {
     if (!d) return 0;
     for (int v = 1; v <= 4; v++) { int ok = 1; for (size_t j = 0; j < sz; j++) if (d[j] != vbyte(v, (int) j)) { ok = 0; break; } if (ok) return v; }
+    if (sz > 0 && d[sz - 1] == 0) { int ok = 1; for (size_t j = 0; j + 1 < sz; j++) if (d[j] != vbyte(5, (int) j)) { ok = 0; break; } if (ok) return 5; }
     return -1;
 }
 static qhasharr_slot_t *slots_of(void *region) { return (qhasharr_slot_t *) ((char *) region + sizeof(qhasharr_data_t)); }
@@ -58,6 +60,9 @@ static int chunk_vid(const unsigned char *d, int dsz, int part) {
     if (part < 1) return -1;
     int off = part == 1 ? 0 : D1 + (part - 2) * D2;
     for (int v = 1; v <= 4; v++) { int ok = 1; for (int j = 0; j < dsz; j++) if (d[j] != vbyte(v, off + j)) { ok = 0; break; } if (ok) return v; }
+    { int ok = 1, n = d[dsz - 1] == 0 ? dsz - 1 : dsz;        /* value 5: the chunk may end with the string terminator */
+      for (int j = 0; j < n; j++) if (d[j] != vbyte(5, off + j)) { ok = 0; break; }
+      if (ok) return 5; }
     return -1;
 }
 static void image(vh_buf *b, void *region) {
@@ -219,12 +224,24 @@ int main(int argc, char **argv) {
             }
             if (a >= 1 && a <= NK && strcmp(op, "rmidx")) { kb = vh_malloc((size_t) keylen[a]); memcpy(kb, keyname[a], (size_t) keylen[a]); }
             vh_watchdog(6);
+            /* the string flavours of the API: usable with NUL-terminated keys when the value is a C string (value 5) */
+            int strget = 0;
+            if (!strcmp(op, "get") && !longkeys && (vh_step % 3) == 0) {
+                size_t psz = 0; unsigned char *pd = T->get(T, kb, &psz);
+                strget = pd && valid_of(pd, psz) == 5;
+                free(pd);
+            }
             errno = 0;
             vh_call_begin();
             if (inject) { if (inj_at) vh_fail_at = kk; else vh_fail_from = kk; }
             if (!strcmp(op, "put")) {
                 if (longkeys) ok = T->put_by_obj(T, kb, (size_t) keylen[a], v, (size_t) len);
+                else if (vid == 5 && len > 0 && (vh_step & 1)) ok = T->putstr(T, kb, (char *) v);
+                else if (vid == 5 && len > 0) ok = T->putstrf(T, kb, "%s", (char *) v);
                 else ok = T->put(T, kb, v, (size_t) len);
+            } else if (!strcmp(op, "get") && strget) {
+                char *d = T->getstr(T, kb);
+                ok = d != NULL; rsz = d ? strlen(d) + 1 : 0; rv = valid_of((unsigned char *) d, rsz); keep((unsigned char *) d, rv, rsz);
             } else if (!strcmp(op, "get")) {
                 unsigned char *d = longkeys ? T->get_by_obj(T, kb, (size_t) keylen[a], &rsz) : T->get(T, kb, &rsz);
                 ok = d != NULL; rv = valid_of(d, rsz); if (!d) rsz = 0; keep(d, rv, rsz);
